@@ -104,6 +104,17 @@ def _leaves(e):
                         yield from _leaves(y)
 
 
+def _resolved(e):
+    """the expression with the conditionals resolved that sympy decides when the model is built: a relation between two
+    identical operands (Le(x, x), Lt(x, x)) is True / False, and Conditional(True, a, b) is a - so that
+    Conditional(Le(x, x), 3, y)/(1 + abs(Conditional(Le(x, x), 3, y))) is the integer quotient 3/(1 + 3) of the text's literals"""
+    if isinstance(e, tuple):
+        if e[0] == "cond" and isinstance(e[1], tuple) and e[1][0] == "rel" and e[1][2] == e[1][3]:
+            return _resolved(e[2] if e[1][1] in ("Le", "Ge", "Eq") else e[3])
+        return tuple(_resolved(x) if isinstance(x, tuple) else ([_resolved(y) for y in x] if isinstance(x, list) else x) for x in e)
+    return e
+
+
 def _int_only(e):
     ls = list(_leaves(e))
     return bool(ls) and all(l[0] == "num" and lang.lit_is_int(l[1]) for l in ls)
@@ -144,7 +155,7 @@ def text_provenance(drv, m):
     model without such a construct is not one of the listed findings, whatever the generated C looks like."""
     defs, stv, pav = lang.model_defs(m)
     es = list(defs.values()) + list(stv.values()) + list(pav.values())
-    return any(_has_int_quotient(e) for e in es), any(_has_mod_ast(e) for e in es)
+    return any(_has_int_quotient(_resolved(e)) for e in es), any(_has_mod_ast(e) for e in es)
 
 
 def check_model(rep, drv, gen, rng, m, text, c, use_clang):
